@@ -57,9 +57,11 @@ Class(P) ==
     ELSE "MustBeSingular"
 
 (* An exactly zero pivot is certain -- in any elimination order, without    *)
-(* fill-in turning the zero into rounding noise -- when a row or a column  *)
-(* is missing (all zero) or when two equations are exact duplicates; only  *)
-(* then is the EDOM error path demanded of the solves.                     *)
+(* fill-in or rounding turning the zero into noise -- when a row or a      *)
+(* column is missing (all zero); only then is the EDOM error path demanded *)
+(* of the solves.  Exactly duplicated rows make a conversion's output      *)
+(* stand out (its right-hand side is not in the range), but a solve with   *)
+(* a consistent right-hand side may legitimately return a finite solution. *)
 HasZeroRow(P) == \E i \in 1..Rows(P) : \A j \in 1..Cols(P) : P[i][j] = 0
 HasZeroCol(P) == \E j \in 1..Cols(P) : \A i \in 1..Rows(P) : P[i][j] = 0
 MissingLine(P) == HasZeroRow(P) \/ HasZeroCol(P)
@@ -88,6 +90,14 @@ TallRank(m, n, rowmap, zerocols) ==
 TallClass(m, n, rowmap, zerocols) ==
     IF TallRank(m, n, rowmap, zerocols) >= n THEN "GenericallyRegular"
     ELSE "MustBeSingular"
+
+(* the EDOM error path is demanded of a tall solve when the elimination    *)
+(* certainly meets an exact zero: fewer equations than unknowns, or an     *)
+(* unknown that occurs in no equation.  Duplicated equations lower the     *)
+(* rank as well (TallClass), but whether the pivot becomes exactly zero    *)
+(* depends on the elimination's rounding, so only "no plausible result"    *)
+(* can be asked there, not the error path.                                 *)
+TallMustRefuse(m, n, rowmap, zerocols) == m < n \/ zerocols # {}
 
 (* restricted growth strings: canonical row maps (set partitions of rows)  *)
 IsRGS(f) ==
